@@ -2,7 +2,7 @@
 from ..rules import shaving, capacity, search, dispatch
 
 EXPLANATION = (
-    "Static analysis of shave_bound and the shaving loop with a summary of the propagation pass (stores only at its entry level): the stack pointer is left as found on all 4 paths; the probe is the single bound value on a temporary level, announced with the moved bound and GROUND on that level's flags row; 'shaved' is returned iff the probe's status is PROBLEM_INCONSISTENT; on the kept path the saved alternative equals the pre-probe domain, on the refuted path it is moved by exactly one; exactly one backtrack after the probe; an iteration following a successful shave starts with a propagation pass whose non-UNBOUND status is returned as is; the probed domain is the tested answer of the variable heuristic; a probe is made only when a level is free. Not equality with plain bound consistency results. Also: the probing loop's progress (no round without a probe, a failed probe advances the cursor/bound pair). Round 3: the scan cursor is set from an answer chosen among the decision domains whose value is >= the cursor; the scan stops on first_not_instantiated's 'none left' answer (sentinel clauses)."
+    "Static analysis of shave_bound and the shaving loop with a summary of the propagation pass (stores only at its entry level): the stack pointer is left as found on all 4 paths; the probe is the single bound value on a temporary level, announced with the moved bound and GROUND on that level's flags row; 'shaved' is returned iff the probe's status is PROBLEM_INCONSISTENT; on the kept path the saved alternative equals the pre-probe domain, on the refuted path it is moved by exactly one; exactly one backtrack after the probe; an iteration following a successful shave starts with a propagation pass whose non-UNBOUND status is returned as is; the probed domain is the tested answer of the variable heuristic; a probe is made only when a level is free. Not equality with plain bound consistency results. Also: the probing loop's progress (no round without a probe, a failed probe advances the cursor/bound pair). Round 3: the scan cursor is set from an answer chosen among the decision domains whose value is >= the cursor; the scan stops on first_not_instantiated's 'none left' answer (sentinel clauses). Round 6: the bound selector handed to shave_bound stays MIN / MAX (inductive over the probing loop); no division by a possibly-zero quantity in the shaving algorithm (a ZeroDivisionError behind the function pointer is discarded and the status is arbitrary)."
 )
 
 
